@@ -145,7 +145,7 @@ def runConc (S : Sys) (seed : Nat) (progs : List (List Str)) : Sys × String :=
 /-! #### model step -/
 
 def step (S : Sys) (line : String) : Sys × String :=
-  match words line with
+  match (words line).map (fun w => if w == "internb" then "intern" else if w == "queryb" then "query" else w) with
   | ["alphabet"] => (S, hexOfBytes alphabet)
   | ["sext", n] =>
     match n.toNat? with
@@ -265,7 +265,7 @@ def specConc (sp : Spec) (progs : List (List Str)) (ans : String) : String :=
   else specConc1 sp progs ans
 
 def spec (sp : Spec) (line ans : String) : Spec × String :=
-  match words line with
+  match (words line).map (fun w => if w == "internb" then "intern" else if w == "queryb" then "query" else w) with
   | ["alphabet"] =>
     match bytesOfHex ans with
     | some a =>
